@@ -181,7 +181,8 @@ def run_engine(ck, tier, seed, pids, with_passloop=False):
     gcases = c06.gen_cases(ck, "quick" if q else tier, seed, tmp)
     if gcases is None:
         return
-    gcases = gcases[:(3000 if q else 60000)]
+    k = 1500 if q else 30000          # simulated programs come first in the list, the structured seed families last
+    gcases = gcases[:k] + gcases[max(k, len(gcases) - k):]
     for c in gcases:
         c["dirs"] = list(range(8))
     gf = os.path.join(tmp, "gdl_cases.ndjson")
